@@ -194,7 +194,9 @@ def rule_N2(prog, fixture=False):
                 have = x.get("w", 0) - (0 if x.get("u") else 1)
                 if wa is None or wb is None:
                     continue
-                if wa + wb > have:
+                # the arguments are 32-bit: a product computed in 64 value bits (or more) holds any product of two
+                    # trial divisors, whatever the declared width of the operands
+                if wa + wb > have and have < 63:
                     bad.append("%s is computed in %s (%d value bits) but its operands carry %d + %d bits"
                                % (x.text(), x.type, have, wa, wb))
             if bad:
